@@ -196,6 +196,8 @@ class Program:
         self._mro_cache: dict[str, list[ClassInfo]] = {}
         self._subs_cache: dict[str, list[ClassInfo]] | None = None
         self.parse_failures: list[str] = []
+        self.else_flattened = 0    # redundant `else` after a non-falling-through branch removed (canonical form, see normalize.flatten_else)
+        self.adjacent_temps_inlined = 0  # `T = E; <stmt reading T first and only>` pairs with a new local T folded back (normalize.inline_adjacent_temps)
         self.locals_recovered = 0  # locals renamed back to their reference names (see localnames.py)
         self.helpers_inlined = 0   # private helpers absent from the reference tree inlined at their call sites (see normalize.py)
         self.spellings_restored = 0  # mirrored comparisons / expanded aug-assigns / inverted ifs put back into the reference spelling
@@ -221,7 +223,10 @@ class Program:
                     tree = ast.parse(src, filename=path)
                     prog.locals_recovered += localnames.recover(tree, rel)
                     prog.helpers_inlined += normalize.inline_new_helpers(tree, rel)
+                    prog.helpers_inlined += normalize.inline_new_predicates(tree, rel)
+                    prog.adjacent_temps_inlined += normalize.inline_adjacent_temps(tree, rel)
                     prog.spellings_restored += normalize.restore_spellings(tree, rel)
+                    prog.else_flattened += normalize.flatten_else(tree)
                 except (SyntaxError, UnicodeDecodeError, OSError) as exc:
                     prog.parse_failures.append(f"{rel}: {exc}")
                     continue
